@@ -160,9 +160,8 @@ def work(item):
                 extra = appended - set(found)
                 if extra:
                     rec['bad'].append(('notes_references', 'references %s are appended to the %s notes but not mentioned' % (sorted(extra)[:3], kind)))
-                # the model scans for every key; to keep the driver fast only the mentioned keys plus a sample of the others are sent
-                others = [k for k in sorted(refdb.keys()) if k not in found and k != 'molssi_bse_schema']
-                rec['notes_req'] = (raw, sorted(found + rng.sample(others, min(12, len(others)))), found)
+                # the model scans the notes for every key of the reference database
+                rec['notes_req'] = (raw, sorted(k for k in refdb.keys() if k != 'molssi_bse_schema'), found)
             out['cases'].append(rec)
     except Exception as e:
         out['cases'].append(dict(sel=None, fmt='notes', bad=[('notes_raise', '%s: %s' % (type(e).__name__, str(e)[:80]))]))
